@@ -1,0 +1,23 @@
+//go:build verif
+// +build verif
+
+package flowcontrols
+
+import (
+	"github.com/kubewharf/kubegateway/pkg/flowcontrols/remote"
+)
+
+// VerifReconcileOnce runs one synchronous allocate round trip for the limiter
+// (the body of the periodic reconcile). Verification-only hook.
+func VerifReconcileOnce(l UpstreamLimiter) {
+	if u, ok := l.(*upstreamLimiter); ok {
+		remote.VerifReconcileOnce(u.reconcile)
+	}
+}
+
+// VerifStop cancels the limiter's context (stops its background goroutines).
+func VerifStop(l UpstreamLimiter) {
+	if u, ok := l.(*upstreamLimiter); ok {
+		u.cancel()
+	}
+}
